@@ -881,6 +881,8 @@ def gen_search_robust(rng):
                 and not (v == "i32lens" and case["lens"] is None)]
         if rng.random() < 0.6:
             case["via"], case["form"] = rng.choice(vias), rng.randrange(12)
+            if "script" in vias and rng.random() < 0.3:
+                case["via"] = "script"       # scriptable cases are a minority: give them a fair share
         return case
 
 
@@ -1169,11 +1171,11 @@ def gen_cases(chk):
         c = gen_search_extreme(rng)
         c["stream"] = "search-extreme-magnitude"
         cases.append(c)
-    for i in range(2500 if thorough else 190):
+    for i in range(2500 if thorough else 170):
         c = gen_search_robust(rng)
         c["stream"] = "search-robust"
         cases.append(c)
-    for i in range(800 if thorough else 60):
+    for i in range(600 if thorough else 40):
         c = gen_second_frame(rng)
         c["stream"] = "search-second-frame"
         cases.append(c)
@@ -1209,7 +1211,13 @@ def run(chk, cases=None):
         "possible or the width is below the number of candidates (advance); at least two frames (search). "
         "search-extreme-magnitude stream: acoustic logits and/or unnormalised LM scores scaled by 100..1000, shifted by "
         "+-100..1000 or dominated by one entry (other probabilities underflow to exactly 0), float32 and float64, small "
-        "betas; float32 cases are compared within 2^-15")
+        "betas; float32 cases are compared within 2^-15. search-robust stream: fused LMs that are not normalised (raw scores; the "
+        "library's MixableShallowFusionLanguageModel first + beta2*second) under both fusion equations, an explicit per-element "
+        "initial LM state, float32, and the same input again through torch.jit.script / keyword arguments / non-contiguous "
+        "logits and lens / int32 lens / a module object used before (relation: same positive-mass prefixes and masses as the "
+        "plain call; arguments must not be overwritten). search-second-frame stream: empty prefix and one-token prefixes with "
+        "non-zero tokens alive after frame 0. About half of the step cases pass non-contiguous views, one tensor object for "
+        "y_prev_last and y_prev_lens, keyword arguments, float32, or sit inside a batch of 2-3 (same model term)")
     chk.assumptions += [
         "torch.softmax / log_softmax / exp results (float64) are handed to the model as exact rationals (regime T); "
         "float rounding of the remaining + and * is absorbed by the 1e-9 tolerance",
@@ -1220,6 +1228,9 @@ def run(chk, cases=None):
         "topk's answer is observed (step outputs; for the module through a recording wrapper around "
         "_decoding.ctc_prefix_search_advance) and validated by Model.topk_ok instead of being predicted",
         "cells of y outside y_lens are undefined and not compared",
+        "entry-point / layout / history variants are judged by the relation 'same answer as the plain eager call' (which itself "
+        "is judged by the model): prefixes with mass above the tolerance and their masses; a near-tie at the pruning boundary "
+        "is excused; scripting is exercised only over a scripted LM (the library scripts no search without LM)",
     ]
     chk.extra["trusted_base"] = [
         "C05: torch.topk's answer is an input of the model (observed from the step outputs), constrained by Model.topk_ok; "
